@@ -3,6 +3,9 @@ import XzVerif.Proofs.Tables
 import XzVerif.Proofs.DictCap
 import XzVerif.Proofs.XzRoundTrip
 import XzVerif.Proofs.XzWriter
+import XzVerif.Proofs.XzW
+import XzVerif.Proofs.HashTable
+import XzVerif.Proofs.BinTree
 /-
   C02 — Everything the xz writer emits is a valid .xz file for other implementations.
 
@@ -87,5 +90,25 @@ theorem C02_block_discipline (bs : Nat) (hbs : 1 ≤ bs) (lens : List Nat) :
 example : (XW.run 10 [3, 7, 0, 25, 1]).blocks = [10, 10, 10, 6] := by decide
 
 example : Xz.padLen 5 = 3 ∧ Xz.padLen 8 = 0 := by decide
+
+/-- **The property itself for the model of the whole xz writer**: whatever is written in whatever pieces, with any
+    valid configuration (lc/lp/pb, dictionary capacity, look-ahead, block size, check) and either match finder model,
+    the emitted bytes are accepted by the reference decoder under the STRICT rules of the format — exactly one stream,
+    block headers and index consistent, every match distance inside the declared dictionary, no end marker inside
+    LZMA2, range coder exactly finished, padding and checks right — and decode to exactly the bytes written.
+    (`XzW.run` is tied to the real `xz.Writer` byte for byte: C01's computed-stream correspondence.) -/
+theorem C02_writer_output_valid_strict_hashtable4 (c : XzW.Cfg) (hc : XzW.CfgOk c) (writes : List ByteArray)
+    (hsize : (XzW.written writes).size < 2 ^ 40) (hblocks : (XzW.split c.blockSize writes).length < 2 ^ 28) (cfgCap : Nat) :
+    (Xz.read true cfgCap false (XzW.run c HT.HT4 (HT.St.new c.w2.dictCap c.w2.bufSize) writes)).status = .eof ∧
+    (Xz.read true cfgCap false (XzW.run c HT.HT4 (HT.St.new c.w2.dictCap c.w2.bufSize) writes)).out = XzW.written writes :=
+  XzW.xz_writer_roundtrip true c hc HT.HT4 (HT.Synced c.w2) (HT.ht4_matcherInv c.w2) _ (HT.synced_new c.w2)
+    writes hsize hblocks cfgCap (fun h => by cases h)
+
+theorem C02_writer_output_valid_strict_bintree (c : XzW.Cfg) (hc : XzW.CfgOk c) (writes : List ByteArray)
+    (hsize : (XzW.written writes).size < 2 ^ 40) (hblocks : (XzW.split c.blockSize writes).length < 2 ^ 28) (cfgCap : Nat) :
+    (Xz.read true cfgCap false (XzW.run c BT.BT4 (BT.St.new c.w2.dictCap c.w2.bufSize) writes)).status = .eof ∧
+    (Xz.read true cfgCap false (XzW.run c BT.BT4 (BT.St.new c.w2.dictCap c.w2.bufSize) writes)).out = XzW.written writes :=
+  XzW.xz_writer_roundtrip true c hc BT.BT4 (BT.Synced c.w2) (BT.bt4_matcherInv c.w2) _ (BT.synced_new c.w2)
+    writes hsize hblocks cfgCap (fun h => by cases h)
 
 end Props.C02
